@@ -9,7 +9,7 @@ import tempfile
 import time
 
 RLIMIT = int(os.environ.get("PYVC_RLIMIT", "60000000"))
-WALL_S = int(os.environ.get("PYVC_WALL_S", "120"))
+WALL_S = int(os.environ.get("PYVC_WALL_S", "60"))
 
 
 def _solve(job):
@@ -45,6 +45,13 @@ def pool():
     return _pool
 
 
+def early_pool():
+    """Fork the worker pool before the main process builds any z3 terms: workers then parse each obligation in
+    a clean z3 context (a forked copy of a populated context was measured to turn sub-second proofs into
+    rlimit-unknowns)."""
+    return pool()
+
+
 def discharge(obligs, rlimit=None, want_model=True):
     """obligs: list of engine.Oblig. Returns list of dict results aligned with obligs (deduplicated by text)."""
     rlimit = rlimit or RLIMIT
@@ -55,13 +62,8 @@ def discharge(obligs, rlimit=None, want_model=True):
         uniq.setdefault(h, t)
     jobs = [(h, t, rlimit, want_model) for h, t in uniq.items()]
     results = {}
-    if len(jobs) <= 2:
-        for j in jobs:
-            k, r, dt, m, why = _solve(j)
-            results[k] = (r, dt, m, why)
-    else:
-        for k, r, dt, m, why in pool().imap_unordered(_solve, jobs, chunksize=1):
-            results[k] = (r, dt, m, why)
+    for k, r, dt, m, why in pool().imap_unordered(_solve, jobs, chunksize=1):
+        results[k] = (r, dt, m, why)
     out = []
     for o, t in zip(obligs, texts):
         h = hashlib.sha1(t.encode()).hexdigest()
